@@ -161,6 +161,12 @@ Definition distinct {L : Type} (ex : L -> Q) (n : nat) (k : nat -> L) : Prop :=
   forall i j, (i < n)%nat -> (j < n)%nat -> i <> j -> ~ ex (k i) == ex (k j).
 Definition distinctq (n : nat) (k : nat -> Q) : Prop :=
   forall i j, (i < n)%nat -> (j < n)%nat -> i <> j -> ~ k i == k j.
+Definition increasingq (n : nat) (k : nat -> Q) : Prop :=
+  forall i j, (i < j < n)%nat -> k i < k j.
+(* the knots a 1-D log-space interpolator is built on: log10 of a valid axis with at least two points
+   (Interpolator1DArray is only constructed when len(axis) > 1) *)
+Definition log_axis {L : Type} (lg : Q -> L) (n : nat) (k : nat -> L) : Prop :=
+  exists xs, axis xs /\ (2 <= length xs)%nat /\ n = length xs /\ forall i, k i = lg (nth i xs 0).
 
 (* 10 ** log10 v = v for v > 0; 10 ** (a + b) = 10 ** a * 10 ** b; 10 ** a >= 0;
    every interpolator returns the stored value when evaluated exactly at a knot *)
@@ -173,11 +179,14 @@ Record oracle_laws (L : Type) (lg : Q -> L) (ex : L -> Q) (ladd : L -> L -> L)
   ol_ex_lg : forall v, 0 < v -> ex (lg v) == v;
   ol_ex_add : forall a b, ex (ladd a b) == ex a * ex b;
   ol_ex_nonneg : forall a, 0 <= ex a;
-  ol_knot1 : forall n k v i, distinct ex n k -> (i < n)%nat -> ex (interp1 n k v (k i)) == ex (v i);
+  ol_knot1 : forall n k v i, log_axis lg n k -> (i < n)%nat -> ex (interp1 n k v (k i)) == ex (v i);
   ol_knot2 : forall nx ny kx ky v i j, distinct ex nx kx -> distinct ex ny ky -> (i < nx)%nat -> (j < ny)%nat ->
              ex (interp2 nx ny kx ky v (kx i) (ky j)) == ex (v i j);
   ol_knot3 : forall nx ny nz kx ky kz v i j k, distinct ex nx kx -> distinct ex ny ky -> distinct ex nz kz ->
              (i < nx)%nat -> (j < ny)%nat -> (k < nz)%nat ->
              ex (interp3 nx ny nz kx ky kz v (kx i) (ky j) (kz k)) == ex (v i j k);
-  ol_knotq : forall n k v i, distinctq n k -> (i < n)%nat -> interpq n k v (k i) == v i
+  ol_knotq : forall n k v i, (2 <= n)%nat -> increasingq n k -> (i < n)%nat -> interpq n k v (k i) == v i
 }.
+
+(* Null*.evaluate(...) of every rate family: 0.0 whatever the arguments (any number of them) *)
+Definition evalnull_at (args : list Q) : outcome := Val 0.
